@@ -135,6 +135,17 @@ struct Check {
         t.DataWriteA32(d, w1);
         if (c.RawWord(p) != w1 || t.ProgramRead(p) != w1 || t.DataReadA32(d) != w1)
             Fail("DataWriteA32", p, Fmt("wrote %04X: raw %04X ProgramRead %04X DataReadA32 %04X", w1, c.RawWord(p), t.ProgramRead(p), t.DataReadA32(d)), rg);
+        // ... and with the other data bank selected: the flat address names its cell whatever bank the 16-bit accesses currently use
+        {
+            c.m->impl->miu.z_page = (u16)(z ^ 1);
+            const u16 w1b = (u16)(w1 ^ 0x0F0F);
+            t.DataWriteA32(d, w1b);
+            const u16 back = t.DataReadA32(d);
+            if (c.RawWord(p) != w1b || t.ProgramRead(p) != w1b || back != w1b)
+                Fail("DataWriteA32:other-bank-selected", p, Fmt("bank select %u, wrote %04X: raw %04X ProgramRead %04X DataReadA32 %04X", z ^ 1, w1b, c.RawWord(p), t.ProgramRead(p), back), rg);
+            t.DataWriteA32(d, w1);
+            ++res.transitions;
+        }
         c.m->impl->miu.z_page = z;
         u16 w2 = Val(p, 5);
         t.DataWrite(a, w2, true);
